@@ -412,6 +412,8 @@ def run(ctx):
         kinds = ['float'] + [ctx.rng.choice(['float', 'complex', 'float32', 'const', 'const']) for _ in range(ctx.rng.randint(1, 3))]
         if ctx.rng.random() < 0.4:
             kinds[0] = ctx.rng.choice(['complex', 'float32'])
+        if i % 3 == 0:
+            kinds = ['const'] + kinds            # the constant in the first slot (at least one polynomial follows)
         vals = []
         for kd in kinds:
             if kd == 'const':
